@@ -15,7 +15,9 @@ impl Float {
         let mut sum = Self::zero(sem, false);
         let x2 = x.sqr();
         let mut prev = Self::one(sem, true);
-        for i in 1..50 {
+        // Enough terms for any precision; the loop stops when the sum converges.
+        let terms = 50.max(sem.get_precision() as u64);
+        for i in 1..terms {
             if prev == sum {
                 break; // Stop if we are not making progress.
             }
@@ -175,7 +177,9 @@ impl Float {
         let mut sum = Self::zero(sem, false);
         let x2 = x.sqr();
         let mut prev = Self::one(sem, true);
-        for i in 1..50 {
+        // Enough terms for any precision; the loop stops when the sum converges.
+        let terms = 50.max(sem.get_precision() as u64);
+        for i in 1..terms {
             if prev == sum {
                 break; // Stop if we are not making progress.
             }
